@@ -8,6 +8,7 @@ import (
 	"strings"
 
 	"github.com/emersion/go-imap/v2/imapserver"
+	"github.com/emersion/go-imap/v2/imapserver/imapmemserver"
 )
 
 // C20 — LIST wildcard matching: imapserver.MatchList.
@@ -108,6 +109,19 @@ func genC20(e *emitter, tier string, seed uint64) {
 		}
 	}
 	e.dist["regexp-crosscheck-mismatches"] = regexMismatch
+	// the same question through LIST on the real server with the in-memory backend
+	srv := c20NewSrv()
+	defer srv.srv.Close()
+	listPatLen := 3
+	if tier == "thorough" {
+		listPatLen = 4
+	}
+	for _, ref := range []string{"", "a", "a/", "b", "b/a", "x", "a/b"} {
+		for _, pat := range c20Names([]byte("ab/*%"), listPatLen) {
+			c20ListCase(e, srv, ref, pat)
+			e.count("list")
+		}
+	}
 	// random longer cases, UTF-8 names, other delimiters
 	r := newRng(seed, "C20")
 	atoms := []string{"a", "b", "c", "INBOX", "é", "日本", "/", ".", "*", "%", "**", "%%", "*%", " ", "\\", "x/y", "\xff"}
@@ -158,6 +172,84 @@ func genC20(e *emitter, tier string, seed uint64) {
 	}
 }
 
+// --- LIST through the real server and the in-memory backend ---
+
+var c20Mailboxes = []string{"a", "ab", "a/a", "a/b", "a/b/a", "a/ab", "b", "b/a", "ba/b"}
+
+type c20Srv struct {
+	srv *imapserver.Server
+	ln  *memListener
+	rc  *rawClient
+	n   int
+}
+
+func c20NewSrv() *c20Srv {
+	mem := imapmemserver.New()
+	u := imapmemserver.NewUser("u", "p")
+	for _, m := range c20Mailboxes {
+		if err := u.Create(m, nil); err != nil {
+			panic(err)
+		}
+	}
+	mem.AddUser(u)
+	ln := newMemListener()
+	srv := imapserver.New(&imapserver.Options{
+		NewSession: func(*imapserver.Conn) (imapserver.Session, *imapserver.GreetingData, error) {
+			return mem.NewSession(), nil, nil
+		},
+		InsecureAuth: true,
+		Logger:       discardLogger{},
+	})
+	go srv.Serve(ln)
+	rc := newRawClient(ln.dial())
+	rc.readLine()
+	rc.cmd("l", "LOGIN u p")
+	return &c20Srv{srv: srv, ln: ln, rc: rc}
+}
+
+func c20Quote(s string) string { return `"` + s + `"` }
+
+// list issues LIST ref pattern and returns a bitmap over c20Mailboxes of the names reported.
+func (s *c20Srv) list(ref, pat string) string {
+	s.n++
+	st, lines := s.rc.cmd("t"+strconv.Itoa(s.n), "LIST "+c20Quote(ref)+" "+c20Quote(pat))
+	if st != "OK" {
+		return "err:" + st
+	}
+	got := map[string]bool{}
+	for _, l := range lines[:len(lines)-1] {
+		if !strings.HasPrefix(l, "* LIST ") {
+			continue
+		}
+		// * LIST (attrs) "/" name
+		i := strings.Index(l, `"/" `)
+		if i < 0 {
+			return "err:unparsable"
+		}
+		got[strings.Trim(l[i+4:], `"`)] = true
+	}
+	if pat == "" {
+		delete(got, "") // LIST with an empty pattern returns the hierarchy delimiter and an empty name
+	}
+	var sb strings.Builder
+	for _, m := range c20Mailboxes {
+		sb.WriteString(b01(got[m]))
+		delete(got, m)
+	}
+	if len(got) > 0 {
+		return "err:unknown-mailbox-listed"
+	}
+	return sb.String()
+}
+
+func c20ListCase(e *emitter, s *c20Srv, ref, pat string) {
+	var names []string
+	for _, m := range c20Mailboxes {
+		names = append(names, hx([]byte(m)))
+	}
+	e.emit("list", "47", hx([]byte("/")), hx([]byte(ref)), hx([]byte(pat)), strings.Join(names, ","), s.list(ref, pat))
+}
+
 func c20One(e *emitter, delim rune, ref, pat, name string) {
 	got := imapserver.MatchList(name, delim, ref, pat)
 	e.emit("one", strconv.Itoa(int(delim)), hx([]byte(c20DelimStr(delim))), hx([]byte(ref)), hx([]byte(pat)), hx([]byte(name)), b01(got))
@@ -172,5 +264,9 @@ func replayC20(e *emitter, kind string, f []string) {
 		e.emit("bm", f[0], f[1], f[2], f[3], f[4], f[5], c20Bitmap(names, rune(d), string(unhx(f[2])), string(unhx(f[3]))))
 	case "one":
 		c20One(e, rune(d), string(unhx(f[2])), string(unhx(f[3])), string(unhx(f[4])))
+	case "list":
+		srv := c20NewSrv()
+		defer srv.srv.Close()
+		c20ListCase(e, srv, string(unhx(f[2])), string(unhx(f[3])))
 	}
 }
